@@ -29,10 +29,14 @@ from .. import exprs as E
 from .. import gen, leanio, pymodel
 
 PROP = "C08"
-LEAN = {"module": "Pygom.Props.C08", "extra_modules": ["Pygom.Lemmas.Canary"],
+LEAN = {"module": "Pygom.Props.C08", "extra_modules": ["Pygom.Lemmas.Canary", "Pygom.Props.C08Source"],
         "required": ["Pygom.C08.inv_init", "Pygom.C08.inv_step", "Pygom.C08.never_stale", "Pygom.C08.never_stale_source",
                      "Pygom.C08.never_stale_partial", "Pygom.C08.stale_after_add_ode", "Pygom.C08.stale_sp_after_add_param",
-                     "Pygom.C08.stale_unwatched_counterexample", "Pygom.C08.source_good", "Pygom.C08.ver_sound"]}
+                     "Pygom.C08.stale_unwatched_counterexample", "Pygom.C08.source_good", "Pygom.C08.ver_sound",
+                     "Pygom.C08Source.extracted_good", "Pygom.C08Source.extracted_registered_watched",
+                     "Pygom.C08Source.extracted_all_registered", "Pygom.C08Source.extracted_watches_all",
+                     "Pygom.C08Source.extracted_master_is_ode", "Pygom.C08Source.extracted_eq_source",
+                     "Pygom.C08Source.never_stale_extracted"]}
 BUDGET = {"quick": {"cases": 280, "maxlen": 12, "search": 600},
           "thorough": {"cases": 360, "maxlen": 40, "search": 800}}
 RULE = ("random initial model (1-3 states, 1-3 params, 0-3 events, every API route incl. incremental ones) + random history "
@@ -47,7 +51,23 @@ ASSUMPTIONS = ["'fresh model' = SimulateOde built from the accumulated definitio
                "evaluations of the same sympy expression (reference accuracy ~1e-15)",
                "the Lean model is the tree WITH proposed_fixes/C08-*.diff applied (Canary.sourceCfg); "
                "VERIF_C08_CFG=as_found selects the model of the tree as found"]
-TRUSTED = ["harness generator / replay logic", "Lean driver JSON codec", "pymodel.build (route replay)"]
+TRUSTED = ["harness generator / replay logic", "Lean driver JSON codec", "pymodel.build (route replay)",
+           "harness/translate_canary.py: that the extracted table (which mutators follow every definition-changing statement by "
+           "trip(), HasNewTransition.states, add_func registrations, set_sp in the declaration setters) says what the Python text does"]
+
+
+def pre(tier):
+    """(T) translator tie: regenerate Gen/CanaryCfg.lean from the source text of the tree under test; the theorems of
+    Pygom.Props.C08Source are then re-checked against it by the lake build of the obligations step"""
+    from .. import bootstrap, translate_canary as TC
+    r = TC.regenerate(bootstrap.REPO)
+    broken = [{"obligation": "translator: %s" % x["what"], "detail": "BROKEN TIE - source outside the translated subset: " + x["detail"]}
+              for x in r["refused"]]
+    n = len(TC.MUTATORS) + 3
+    return {"broken": broken, "obligations": n, "discharged": n - len(broken),
+            "coverage": {"generated_files_changed": ["lean/Pygom/Gen/CanaryCfg.lean"] if r["changed"] else [],
+                         "canary_translator": {"trips": r["trips"], "watched": r["watched"], "registered": r["registered"],
+                                               "declSetsSp": r["declSetsSp"], "per_mutator": r["detail"], "refusals": r["refused"]}}}
 
 EVALS = ["ode", "jacobian", "grad", "diff_jacobian", "grad_jacobian", "grad_grad", "eventRateVector", "vMat", "pureOdeVector",
          "transitionJacobian", "transitionMean", "transitionVar"]
